@@ -80,6 +80,19 @@ CHECKS.update({
    technique="stateless exploration of real thread interleavings under a controlled scheduler (sys.monitoring line/bytecode scheduling points, baton hand-off, cooperative model lock), iterative pre-emption bounding; brute-force linearizability against sequential runs of the real component",
    text="22 small concurrent programs over one shared CircuitBreaker or Budget (racing probes, racing failures at the threshold, settle-vs-allow, racing consume at one token left, all-or-nothing consume(2), state/remaining reads, 3-thread variants, window-boundary variants): every interleaving with pre-emption before every source line up to the bound (complete for 2 threads x 1 op in thorough, plus bytecode granularity) must give per-thread results, final state and follow-up answers equal to some sequential order; deadlocks and exceptions under an interleaving are violations.",
    note="clock constant during the concurrent phase; sequential consistency (GIL); pre-emption bound 2-3 quick; any threading.Lock/RLock attribute of the instance is replaced by a model lock"),
+
+ "C18": dict(engine="E5 domain + E2 state", cat="exploration", ref="6 C18",
+   technique="exhaustive enumeration of a finite input lattice (attempt x previous delay x parameters x owned random draw) against exact rational envelopes; explicit-state BFS over histories of the real AdaptiveStrategy",
+   text="Full product of ~1300 (4300 thorough) attempt numbers including 2^k+-1 and 1e18, 7 previous delays, 21 (base,max) pairs and 5 draw fractions (endpoints and interior) for decorrelated_jitter / equal_jitter / token_backoff with envelopes computed in exact rational arithmetic; retry_after_or over hint x jitter x remaining x fallback lattices; adaptive() over all histories of success/failure/tick/call to depth 7 (9): never raises, stays within its envelope.",
+   note="bounded input enumeration, not a proof over the reals; the random module inside redress.strategies is replaced by an owned stub; token_backoff compared with relative tolerance 1e-9"),
+ "C19": dict(engine="E5 domain", cat="exploration", ref="6 C19",
+   technique="exhaustive enumeration of exception types x attribute-value products against an independently restated classification table with explicit don't-cares; optional-library classifiers with importlib made to fail",
+   text="~1M evaluations: 28 exception types (markers, TimeoutError, builtins, generated names hitting/missing every heuristic) x every int in -1000..1000 on each attribute alone and the full product of a 19-32 value core (None, bools, huge ints, floats, NaN, strings, bytes, containers, objects) on attribute pairs (triples thorough), args shapes, SQLSTATE codes and near misses: each classifier returns an ErrorClass within the documented table's allowed set and never raises; strict_classifier is invariant under renaming; each optional-library classifier equals default_classifier when its import fails.",
+   note="where the documentation is silent (truthy non-int status masking code, marker vs numeric on http/sqlstate, non-string SQLSTATE values) every reading is accepted"),
+ "C20": dict(engine="E5 domain + E1 end-to-end", cat="exploration", ref="6 C20",
+   technique="exhaustive enumeration of header strings from a token grammar up to length 3 (4), non-string values and container shapes with an owned wall clock; end-to-end runs of a real Retry with http_retry_after_classifier and retry_after_or over hint x jitter x draw x remaining lattices",
+   text="Every string of <= 3 (4) tokens from a 30-token grammar as header value and as retry_after attribute, 17 non-string values, 28 container shapes x key casings x exc.headers/exc.response.headers: never raises, yields no hint or a non-negative number, exactly n for a plain digit string within float range, exactly the time until a valid HTTP-date clamped at 0, no hint for digit-free garbage; end-to-end the sleeper receives a delay in [min(h, rem), min(h+jitter, rem)].",
+   note="datetime inside redress.extras.http replaced by an owned subclass (now = 2030-01-01T00:00:00Z); strings containing digits that are neither plain digit strings nor the four valid dates are don't-cares"),
 })
 PENDING = {
 }
